@@ -13,7 +13,7 @@ KINDS = ["raise", "raise_coercible", "raise_gql_ext", "exc_value", "null", "garb
 
 
 def expand_factory(tier_):
-    per_base = 40 if tier_ == "quick" else 160
+    per_base = 40 if tier_ == "quick" else 120
 
     def expand(rng, s, cases, cfg):
         # fault-free baseline runs give the call sites
@@ -22,8 +22,8 @@ def expand_factory(tier_):
         out = []
         for c, r in zip(base, runs):
             sites = [tuple(x["path"]) for x in r["calls"]]
-            if not sites:
-                continue
+            if not sites or len(sites) > c01.MAX_CALLS_PER_CASE:
+                continue          # nothing to fail / a request too heavy to be multiplied by the failure kinds
             out.append(c)
             singles = [(p, k) for p in sites for k in KINDS]
             rng.shuffle(singles)
@@ -55,7 +55,7 @@ def extensions_kept(c, r):
 
 
 def main(tier_, replay=None):
-    n = (3, 6) if tier_ == "quick" else (16, 14)
+    n = (3, 6) if tier_ == "quick" else (12, 12)
     return c01.run_property(
         "C02", tier_, bits=1 | 2 | 4 | 8 | 64,
         explore_kwargs=dict(adversarial=0.0, fail=0.0, n_override=n, expand=expand_factory(tier_)),
